@@ -187,7 +187,36 @@ var uriTable = []string{
 	"https://aka4.example/a%20b/../c",
 }
 
+// twinURIs: URI 2 is spelled so that it differs from URI 1 as a string only (a parser-normalised form - lower-case
+// scheme, escaped path - is the same); add / remove-also-known-as compare the URIs they were given
+var twinURIs = os.Getenv("VERIF_TWIN_URIS") == "1"
+
+var twinTable = map[int]string{1: "https://aka1.example/zoë?q=1", 2: "HTTPS://aka1.example/zo%C3%AB?q=1"}
+
+func twinInvalid(ps []CPatch) bool {
+	for _, p := range ps {
+		if p.A != "add-also-known-as" && p.A != "remove-also-known-as" {
+			continue
+		}
+
+		has := map[int]bool{}
+		for _, i := range p.IDs {
+			has[i] = true
+		}
+
+		if has[1] && has[2] {
+			return true
+		}
+	}
+
+	return false
+}
+
 func uriOf(i int) string {
+	if t, ok := twinTable[i]; ok && twinURIs {
+		return t
+	}
+
 	if i < len(uriTable) {
 		return uriTable[i]
 	}
@@ -197,6 +226,14 @@ func uriOf(i int) string {
 
 // uriID maps a concrete URI back (-1: not a URI the harness handed out).
 func uriID(s string) int {
+	if twinURIs {
+		for i, t := range twinTable {
+			if t == s {
+				return i
+			}
+		}
+	}
+
 	for i := 1; i < len(uriTable); i++ {
 		if uriTable[i] == s {
 			return i
@@ -592,6 +629,18 @@ func composerReplay(args []string) {
 				var ed cedge
 				if err := json.Unmarshal(line, &ed); err != nil {
 					fatalf("bad edge line: %v: %.300s", err, line)
+				}
+
+				// (twin URIs: a list naming both spellings in one patch is refused by validation - not in the alphabet)
+				if twinURIs {
+					skip := twinInvalid(ed.Patches)
+					for _, st := range ed.Path {
+						skip = skip || twinInvalid(st.Ps)
+					}
+
+					if skip {
+						continue
+					}
 				}
 
 				nOther := len(ed.Post.Other)
